@@ -8,6 +8,8 @@ import (
 	"fmt"
 	"reflect"
 	"sort"
+	"strconv"
+	"strings"
 	"sync"
 	"testing"
 	"time"
@@ -113,6 +115,15 @@ func evalC12Nsp(c c12NspCase) (f *Failure, nontrivial bool) {
 					return fmt.Sprintf("rejected by %d", i)
 				case "struct":
 					return &c12Rejection{Code: i, Reason: "rejected"}
+				// rejections whose value is the zero value of its type: not nil, so they reject like any other
+				case "empty-string":
+					return ""
+				case "zero-struct":
+					return c12Rejection{}
+				case "zero-int":
+					return 0
+				case "false":
+					return false
 				}
 				return nil
 			})
@@ -251,6 +262,18 @@ func evalC12Nsp(c c12NspCase) (f *Failure, nontrivial bool) {
 						set(fail("rejection-carried", fmt.Sprintf("client %d: connect_error carries %#v, want the message %q", ci, got, want)))
 						return
 					}
+				case "empty-string":
+					if e, isErr := got.(error); !isErr || e.Error() != "" {
+						set(fail("rejection-carried", fmt.Sprintf("client %d: connect_error carries %#v, want the empty message", ci, got)))
+						return
+					}
+				case "zero-struct", "zero-int", "false":
+					b, _ := json.Marshal(got)
+					want := map[string]string{"zero-struct": `{"code":0,"reason":""}`, "zero-int": "0", "false": "false"}[c.Chain[j].Verdict]
+					if string(b) != want {
+						set(fail("rejection-carried", fmt.Sprintf("client %d: connect_error carries %s, want %s", ci, b, want)))
+						return
+					}
 				case "struct":
 					b, _ := json.Marshal(got)
 					var back c12Rejection
@@ -288,7 +311,7 @@ func evalC12Nsp(c c12NspCase) (f *Failure, nontrivial bool) {
 func TestC12_NamespaceChain(t *testing.T) {
 	setT(t)
 	defer startWatchdog(t, 60*time.Second)()
-	ev := NewEv(t, "C12", c12CheckNsp, "rapid on the virtual-time rig (connection state recovery off / on, clients optionally claiming a session that does not exist): chains of 0..5 namespace middlewares, each accept / reject with error / string / struct, optionally slow (virtual delay), on / and a custom "+
+	ev := NewEv(t, "C12", c12CheckNsp, "rapid on the virtual-time rig (connection state recovery off / on, clients optionally claiming a session that does not exist): chains of 0..5 namespace middlewares, each accept / reject with error / string / struct / a value that is the zero value of its type (\"\", struct{}, 0, false), optionally slow (virtual delay), on / and a custom "+
 		"namespace, 1..4 clients connecting concurrently, a broadcast issued while sockets are still in the chain; oracle: invocation indices 0..j in order (j = first rejecter), inside every middleware the "+
 		"socket is not listed, in no room, Connected()==false; all accept => connect once, listed, own room, connection handler once, reachable; reject => connect_error carrying exactly that rejection, "+
 		"no connect, no handler, nothing listed or in a room; non-trivial = chain >= 2 with a rejection at index >= 1, or a broadcast issued while a socket was in the chain")
@@ -300,7 +323,7 @@ func TestC12_NamespaceChain(t *testing.T) {
 		n := rapid.IntRange(0, 5).Draw(t, "chain")
 		slow := rapid.Bool().Draw(t, "slow")
 		for i := 0; i < n; i++ {
-			m := c12MW{Verdict: rapid.SampledFrom([]string{"accept", "accept", "accept", "error", "string", "struct"}).Draw(t, "verdict")}
+			m := c12MW{Verdict: rapid.SampledFrom([]string{"accept", "accept", "accept", "accept", "accept", "error", "string", "struct", "empty-string", "zero-struct", "zero-int", "false"}).Draw(t, "verdict")}
 			if slow && rapid.Bool().Draw(t, "isSlow") {
 				m.SlowMs = rapid.SampledFrom([]int{10, 100, 1000}).Draw(t, "slowMs")
 			}
@@ -332,6 +355,67 @@ type c12EventCase struct {
 	Events    int    `json:"events"`
 	ClientAck bool   `json:"client_ack"` // the client asks for an acknowledgement although the handler takes no ack function (signatures without ack)
 	Handlers  int    `json:"handlers"`   // handlers registered for the event: 1 = OnEvent; 2 = OnEvent twice; 3 = OnEvent twice + OnceEvent (0 is read as 1)
+	// Burst: the events (then 4..24 of them) are emitted back to back, so that several of one socket are in the chain at once, and every
+	// middleware decides by the arguments: it rejects the events with an odd number and accepts the even ones (Chain only gives the length).
+	Burst bool `json:"burst"`
+}
+
+// c12Index recovers the number of the event from the arguments a middleware or handler was given; ok is false when the arguments do not
+// belong to one and the same event.
+func c12Index(sig string, args []any) (idx int, ok bool) {
+	num := func(v any, prefix string) (int, bool) {
+		var s string
+		switch x := v.(type) {
+		case string:
+			s = x
+		case Bin:
+			s = string(x)
+		case []byte:
+			s = string(x)
+		default:
+			return 0, false
+		}
+		if !strings.HasPrefix(s, prefix) {
+			return 0, false
+		}
+		n, err := strconv.Atoi(s[len(prefix):])
+		return n, err == nil
+	}
+	asInt := func(v any) (int, bool) {
+		switch x := v.(type) {
+		case int:
+			return x, true
+		case float64:
+			return int(x), true
+		case int64:
+			return int(x), true
+		}
+		return 0, false
+	}
+	switch sig {
+	case "string-first":
+		if len(args) < 2 {
+			return 0, false
+		}
+		a, ok1 := num(args[0], "hi")
+		b, ok2 := asInt(args[1])
+		return a, ok1 && ok2 && a == b
+	case "int-first":
+		if len(args) < 2 {
+			return 0, false
+		}
+		a, ok1 := asInt(args[0])
+		b, ok2 := num(args[1], "hi")
+		return a, ok1 && ok2 && a == b
+	case "binary":
+		if len(args) < 2 {
+			return 0, false
+		}
+		a, ok1 := num(args[0], "bin")
+		b, ok2 := num(args[1], "tail")
+		return a, ok1 && ok2 && a == b
+	}
+	return 0, false
 }
 
 func evalC12Event(c c12EventCase) (f *Failure, nontrivial bool) {
@@ -368,6 +452,12 @@ func evalC12Event(c c12EventCase) (f *Failure, nontrivial bool) {
 					mwSeen = append(mwSeen, seen{i, name, append([]any{}, v...)})
 					order = append(order, fmt.Sprintf("mw%d", i))
 					mu.Unlock()
+					if c.Burst {
+						if idx, ok := c12Index(c.Signature, v); !ok || idx%2 == 1 {
+							return errors.New("event rejected")
+						}
+						return nil
+					}
 					if !accept {
 						return errors.New("event rejected")
 					}
@@ -430,13 +520,47 @@ func evalC12Event(c c12EventCase) (f *Failure, nontrivial bool) {
 			case "string-ack":
 				cli.Emit("ev", fmt.Sprintf("hi%d", i), func(reply string) { mu.Lock(); acks++; mu.Unlock() })
 			case "binary":
-				cli.Emit("ev", append([]any{Bin(fmt.Sprintf("bin%d", i)), "tail"}, extra...)...)
+				cli.Emit("ev", append([]any{Bin(fmt.Sprintf("bin%d", i)), fmt.Sprintf("tail%d", i)}, extra...)...)
 			}
-			settle(100 * time.Millisecond)
+			if !c.Burst {
+				settle(100 * time.Millisecond)
+			}
 		}
 		settle(time.Second)
 		mu.Lock()
 		defer mu.Unlock()
+		if c.Burst {
+			// several events of one socket were in the chain at once; every middleware invocation and every handler run must have been
+			// given the arguments of one event, and exactly the events the chain accepted (even numbers) reach the handlers
+			for _, s := range mwSeen {
+				if _, ok := c12Index(c.Signature, s.args); !ok || s.name != "ev" {
+					res = fail("middleware-sees-arguments", fmt.Sprintf("middleware %d was given (%q, %v): not the arguments of one emitted event", s.mw, s.name, s.args))
+					return
+				}
+			}
+			handled := map[int]int{}
+			for _, a := range handlerArgs {
+				idx, ok := c12Index(c.Signature, a)
+				if !ok {
+					res = fail("accepted-event-handled-once", fmt.Sprintf("a handler ran with %v: not the arguments of one emitted event", a))
+					return
+				}
+				handled[idx]++
+			}
+			H := max(c.Handlers, 1)
+			for i := 0; i < c.Events; i++ {
+				switch {
+				case len(c.Chain) > 0 && i%2 == 1 && handled[i] != 0:
+					res = fail("rejected-event-not-handled", fmt.Sprintf("event %d was rejected by the chain (odd number) but a handler ran for it %d times (handled %v)", i, handled[i], handled))
+				case (len(c.Chain) == 0 || i%2 == 0) && (handled[i] < min(H, 2) || handled[i] > H):
+					res = fail("accepted-event-handled-once", fmt.Sprintf("event %d was accepted by the chain; with %d handlers registered they ran %d times for it (handled %v, errors %v)", i, H, handled[i], handled, errs))
+				}
+				if res != nil {
+					return
+				}
+			}
+			return
+		}
 		wantMW := len(c.Chain)
 		if firstReject >= 0 {
 			wantMW = firstReject + 1
@@ -517,6 +641,7 @@ func TestC12_EventChain(t *testing.T) {
 	ev := NewEv(t, "C12", c12CheckEvent, "rapid on the rig: chains of 0..3 per-socket event middlewares (ServerSocket.Use, both accepted declarations), accept/reject, event signatures {string first, "+
 		"non-string first, no arguments, with ack function, binary first}, 1..3 handlers registered for the event (OnEvent, OnEvent again, OnceEvent), the client optionally asking for an acknowledgement the handler does not take, 1..4 events; oracle: every middleware up to the first rejecter sees the emitted event name and the arguments, before the handler; "+
 		"rejected => no handler runs and the error handlers fire (once per event or per handler); accepted => every On handler once per event, the Once handler once (ack returns); "+
+		"burst mode: 4..24 events back to back with middlewares that decide by the arguments (odd numbers rejected): every invocation sees the arguments of one event, exactly the accepted events are handled; "+
 		"non-trivial = a chain >= 1 on an event whose first argument is not a string")
 	rapidGuard(t, "C12", c12CheckEvent)
 	runRapid(t, c12CheckEvent, tierN(8000, 60000), func(t *rapid.T) {
@@ -524,6 +649,9 @@ func TestC12_EventChain(t *testing.T) {
 			Signature: rapid.SampledFrom([]string{"string-first", "int-first", "none", "string-ack", "binary"}).Draw(t, "signature"), Events: rapid.IntRange(1, 4).Draw(t, "events"), Handlers: rapid.SampledFrom([]int{1, 1, 2, 3}).Draw(t, "handlers"), ClientAck: rapid.IntRange(0, 2).Draw(t, "clientAck") == 0}
 		for i, n := 0, rapid.IntRange(0, 3).Draw(t, "chain"); i < n; i++ {
 			c.Chain = append(c.Chain, rapid.IntRange(0, 3).Draw(t, "accept") > 0)
+		}
+		if c.Signature != "none" && c.Signature != "string-ack" && rapid.IntRange(0, 2).Draw(t, "burst") == 0 {
+			c.Burst, c.Events = true, rapid.IntRange(4, 24).Draw(t, "burstEvents")
 		}
 		f, nt := evalC12Event(c)
 		ev.Case(c, nt, c.Signature)
